@@ -17,6 +17,7 @@ type keyWrite struct {
 	any   bool               // written at an unknown reference
 	fresh bool               // written at references allocated by the code itself
 	bases map[ssa.Value]bool // written at these (caller-visible) SSA values
+	deep  map[ssa.Value]bool // written at sub-objects of these values (nested struct fields)
 }
 
 type writeSet struct {
@@ -138,7 +139,11 @@ func (E *Engine) havocKeys(st *State, ws *writeSet, resolve func(ssa.Value) (*Te
 				conds = append(conds, tb.Not(tb.Eq(r, b)))
 			}
 		}
-		E.addFact(st, tb.Forall([]*Term{r}, tb.Implies(tb.And(conds...), tb.Eq(tb.Select(nw, r), tb.Select(old, r)))))
+		if kw.fresh && len(bases) == 0 {
+			E.addFrameFact(st, tb.Forall([]*Term{r}, tb.Implies(tb.And(conds...), tb.Eq(tb.Select(nw, r), tb.Select(old, r)))))
+		} else {
+			E.addFact(st, tb.Forall([]*Term{r}, tb.Implies(tb.And(conds...), tb.Eq(tb.Select(nw, r), tb.Select(old, r)))))
+		}
 	}
 }
 
@@ -188,6 +193,16 @@ func (E *Engine) classify(w *writeSet, inRegion func(ssa.Instruction) bool) {
 			}
 		}
 		kw.bases = nb
+		for b := range kw.deep {
+			o := E.valueOrigin(b, inRegion, map[ssa.Value]bool{})
+			if o.unknown || len(o.vals) > 0 {
+				kw.any = true // a sub-object of something that existed before
+			}
+			if o.fresh {
+				kw.fresh = true
+			}
+		}
+		kw.deep = nil
 	}
 }
 
@@ -209,6 +224,20 @@ func (E *Engine) regObjKeys(w *writeSet, t types.Type, tenv TEnv, base ssa.Value
 		} else {
 			kw.bases[base] = true
 		}
+	}
+}
+
+// regObjKeysDeep: the object at root (and its nested sub-objects) is written. Which references that
+// touches is decided by classify: nothing that existed before if root was allocated inside the region.
+func (E *Engine) regObjKeysDeep(w *writeSet, t types.Type, tenv TEnv, root ssa.Value) {
+	ks := map[string]bool{}
+	E.objKeys(t, tenv, ks)
+	for k := range ks {
+		kw := w.key(k)
+		if kw.deep == nil {
+			kw.deep = map[ssa.Value]bool{}
+		}
+		kw.deep[root] = true
 	}
 }
 
@@ -259,14 +288,18 @@ func (E *Engine) addrWrites(v ssa.Value, tenv TEnv, w *writeSet) {
 		si := E.structInfoOf(pt.Elem(), tenv)
 		ft := si.ftypes[a.Field]
 		if isStruct(ft) {
-			E.regObjKeys(w, ft, tenv, nil)
+			E.regObjKeysDeep(w, ft, tenv, root)
 		} else {
 			k, ks := E.fieldKey(si, a.Field)
 			kw := E.regKey(w, k, ks)
 			if depth == 0 {
 				kw.bases[a.X] = true
 			} else {
-				kw.any = true // field of an embedded struct: written at a derived reference
+				// field of an embedded struct: written at a derived reference
+				if kw.deep == nil {
+					kw.deep = map[ssa.Value]bool{}
+				}
+				kw.deep[root] = true
 			}
 		}
 		// the base may be an interior pointer into a slice of structs
@@ -284,7 +317,7 @@ func (E *Engine) addrWrites(v ssa.Value, tenv TEnv, w *writeSet) {
 		return
 	}
 	if hasNestedStruct(E, pt.Elem(), tenv) {
-		E.regObjKeys(w, pt.Elem(), tenv, nil)
+		E.regObjKeysDeep(w, pt.Elem(), tenv, v)
 		return
 	}
 	E.regObjKeys(w, pt.Elem(), tenv, v)
@@ -307,7 +340,12 @@ func (E *Engine) instrWrites(fn *ssa.Function, in ssa.Instruction, tenv TEnv, w 
 		w.key(allocKey).any = true
 		el := t.Type().(*types.Pointer).Elem()
 		if hasNestedStruct(E, el, tenv) {
-			E.regObjKeys(w, el, tenv, nil)
+			// the new object and its sub-objects are born now: nothing that existed before is written
+			ks := map[string]bool{}
+			E.objKeys(el, tenv, ks)
+			for k := range ks {
+				w.key(k).fresh = true
+			}
 		} else {
 			E.regObjKeys(w, el, tenv, t)
 		}
@@ -382,6 +420,27 @@ func (E *Engine) callWrites(fn *ssa.Function, cc *ssa.CallCommon, site ssa.Instr
 	case *ssa.MakeClosure:
 		E.fnWrites(v.Fn.(*ssa.Function), cc.Args, v.Bindings, tenv, w)
 		return
+	case *ssa.Phi:
+		// a function-typed variable assigned statically known functions in the branches of an if
+		ok := true
+		for _, e := range v.Edges {
+			switch e.(type) {
+			case *ssa.Function, *ssa.MakeClosure:
+			default:
+				ok = false
+			}
+		}
+		if ok {
+			for _, e := range v.Edges {
+				switch f := e.(type) {
+				case *ssa.Function:
+					E.fnWrites(f, cc.Args, nil, tenv, w)
+				case *ssa.MakeClosure:
+					E.fnWrites(f.Fn.(*ssa.Function), cc.Args, f.Bindings, tenv, w)
+				}
+			}
+			return
+		}
 	case *ssa.Parameter:
 		// a function-typed parameter of the target of a //verif:pure-func-params contract
 		if h := E.P.contracts[originOf(fn)]; h != nil && h.PureFuncParams {
@@ -425,6 +484,9 @@ func (E *Engine) fnWrites(fn *ssa.Function, actuals []ssa.Value, bindings []ssa.
 		}
 		if h := E.P.contracts[org]; h != nil {
 			return // external with a (trusted) contract: writes nothing unless the contract says so
+		}
+		if E.P.pureFns[org] {
+			return
 		}
 		w.all = true
 		return
